@@ -10,14 +10,15 @@ def pipeline_srcs(p='d'):
                    '-D%sgstrf_WorkInit=real_%sgstrf_WorkInit' % (P, P),
                    '-D%sgstrf_WorkFree=real_%sgstrf_WorkFree' % (P, P)]
     return [
-        P + 'gstrf_init.c', 'sp_colorder.c', 'sp_coletree.c', 'qrnzcnt.c', 'cholnzcnt.c', 'get_perm_c.c',
+        P + 'gstrf_init.c', 'sp_colorder.c', 'sp_coletree.c', 'qrnzcnt.c', 'cholnzcnt.c', 'get_perm_c.c', 'colamd.c', 'mmd.c',
         P + 'gstrf.c', P + 'gstrf_thread_init.c', P + 'gstrf_thread.c', P + 'gstrf_thread_finalize.c',
         P + 'gstrf_factor_snode.c', P + 'gstrf_snode_dfs.c', P + 'gstrf_snode_bmod.c',
         P + 'gstrf_panel_dfs.c', P + 'gstrf_panel_bmod.c', P + 'gstrf_bmod1D.c', P + 'gstrf_bmod2D.c',
         P + 'gstrf_column_dfs.c', P + 'gstrf_column_bmod.c', P + 'gstrf_copy_to_ucol.c',
         'pxgstrf_pruneL.c', 'pxgstrf_relax_snode.c', 'pxgstrf_scheduler.c', 'pxgstrf_synch.c',
         'pxgstrf_mark_busy_descends.c', 'pxgstrf_super_bnd_dfs.c', 'pxgstrf_finalize.c', 'pmemory.c',
-        'util.c', P + 'util.c', p + 'gstrs.c', p + 'myblas2.c', p + 'sp_blas2.c', 'lsame.c', 'await.c',
+        ('util.c', ['-Dsuperlu_abort_and_exit=real_superlu_abort_and_exit']), P + 'util.c', p + 'gstrs.c',
+        p + 'myblas2.c', p + 'sp_blas2.c', p + 'sp_blas3.c', 'lsame.c', 'await.c',
         (P + 'memory.c', mem_renames),
     ]
 
